@@ -101,6 +101,8 @@ var catalogue = []namedDecl{
 	{pkgSrc, "src", "localUnexp", false, false, false, 0, false, true, "type localUnexp struct{ y int }"},
 	{pkgSrc, "src", "Ünit", false, false, false, 0, false, true, "type Ünit struct{ U int }"},
 	{pkgAlpha, "alpha", "Élan", false, true, true, 0, false, false, "type Élan []string"},
+	{pkgAlpha, "alpha", "Closer", false, true, false, 0, true, true, "type Closer interface{ Close2() error }"},
+	{pkgAlpha, "alpha", "RC", false, true, false, 0, true, true, "type RC interface {\n\tI\n\tCloser\n\tFlush2()\n}"},
 }
 
 var basicNames = []string{"int", "string", "bool", "byte", "rune", "float64", "uint8", "uintptr", "complex128", "int64", "uint", "int32", "float32"}
